@@ -9,6 +9,7 @@
 package c04
 
 import (
+	"database/sql"
 	"encoding/json"
 	"fmt"
 	"sort"
@@ -21,6 +22,7 @@ import (
 	"verif/sim/fam"
 	"verif/sim/ops"
 	"verif/sim/simdrv"
+	"verif/sim/simpool"
 )
 
 type Step struct {
@@ -46,6 +48,7 @@ type Case struct {
 	Prepare       bool        `json:"prepare_stmt"`
 	DisableNested bool        `json:"disable_nested"`
 	SkipDefault   bool        `json:"skip_default_tx"`
+	PoolShim      bool        `json:"pool_shim"` // gorm is opened on a ConnPool wrapper (ConnPoolBeginner path) instead of *sql.DB
 	MaxSites      int         `json:"max_sites"`
 	Pairs         bool        `json:"pairs"`
 	Pick          int64       `json:"pick_seed"`
@@ -125,7 +128,7 @@ func (g *gen) block(depth int) *Block {
 }
 
 func (Prop) Gen(r *core.Rand, tier string) interface{} {
-	c := &Case{Prepare: r.Chance(35), DisableNested: r.Chance(25), SkipDefault: r.Chance(30), Pick: r.Int63()}
+	c := &Case{Prepare: r.Chance(35), DisableNested: r.Chance(25), SkipDefault: r.Chance(30), PoolShim: r.Chance(30), Pick: r.Int63()}
 	g := &gen{r: r, keys: []string{"base"}}
 	if r.Chance(75) {
 		c.Tree = g.block(1)
@@ -209,6 +212,7 @@ func (Prop) Shrink(ci interface{}) []interface{} {
 		func(v *Case) bool { x := v.Prepare; v.Prepare = false; return x },
 		func(v *Case) bool { x := v.DisableNested; v.DisableNested = false; return x },
 		func(v *Case) bool { x := v.SkipDefault; v.SkipDefault = false; return x },
+		func(v *Case) bool { x := v.PoolShim; v.PoolShim = false; return x },
 	} {
 		v := *c
 		if f(&v) {
@@ -362,7 +366,7 @@ func (r *run) filter(ok func(w world) bool, class, key, detail string) {
 }
 
 func (r *run) cfgKey() string {
-	return fmt.Sprintf("prepare=%v,nonested=%v,skipdefault=%v", r.c.Prepare, r.c.DisableNested, r.c.SkipDefault)
+	return fmt.Sprintf("prepare=%v,nonested=%v,skipdefault=%v,poolshim=%v", r.c.Prepare, r.c.DisableNested, r.c.SkipDefault, r.c.PoolShim)
 }
 
 // write executes one write step through tx and advances the model.
@@ -733,6 +737,9 @@ func (p Prop) exec(c *Case, faults []*ops.Fault) (*result, error) {
 	res := &result{}
 	var r *run
 	o := env.Options{PrepareStmt: c.Prepare, DisableNestedTransaction: c.DisableNested, SkipDefaultTransaction: c.SkipDefault}
+	if c.PoolShim {
+		o.WrapPool = func(db *sql.DB, drv *simdrv.Sim) gorm.ConnPool { return simpool.New(db, drv) }
+	}
 	sr, err := ops.RunMulti(o, faults, nil, func(e *env.Env) ops.Result {
 		r = &run{c: c, e: e, worlds: []world{{map[string]string{"base": "0"}}}}
 		for _, f := range faults {
